@@ -422,6 +422,59 @@ func mutateValid(f *form.Form, flipLocks bool, force string) mutation {
 	return m
 }
 
+// mutateLockAndChange: every field toggles its lock flag AND gets a valid value different from the current
+// one in the same fill (unlocked -> locked + new value is the transition every fill* function must honour).
+func mutateLockAndChange(f *form.Form) {
+	other := func(cur string, opts []string) string {
+		for _, i := range r.Rand.Perm(len(opts)) {
+			if opts[i] != cur {
+				return opts[i]
+			}
+		}
+		return cur
+	}
+	for _, t := range f.TextFields {
+		for i := 0; i < 20; i++ {
+			if v := textValue(t.Multiline, t.MaxLen); v != t.Value {
+				t.Value = v
+				break
+			}
+		}
+		t.Locked = !t.Locked
+	}
+	for _, t := range f.DateFields {
+		for i := 0; i < 20; i++ {
+			if v := dateIn(t.Format); v != t.Value {
+				t.Value = v
+				break
+			}
+		}
+		t.Locked = !t.Locked
+	}
+	for _, t := range f.CheckBoxes {
+		t.Value = !t.Value
+		t.Locked = !t.Locked
+	}
+	for _, t := range f.RadioButtonGroups {
+		t.Value = other(t.Value, t.Options)
+		t.Locked = !t.Locked
+	}
+	for _, t := range f.ComboBoxes {
+		t.Value = other(t.Value, t.Options)
+		t.Locked = !t.Locked
+	}
+	for _, t := range f.ListBoxes {
+		cur := ""
+		if len(t.Values) > 0 {
+			cur = t.Values[0]
+		}
+		if o := other(cur, t.Options); o != cur {
+			t.Values = []string{o}
+		}
+		t.Locked = !t.Locked
+	}
+}
+
 // mutateInvalid plants values outside the options / formats (correspondence only).
 func mutateInvalid(f *form.Form) {
 	bad := func(opts []string) string {
@@ -676,13 +729,20 @@ func scenario(origin string, pdf []byte, mutate bool) {
 	}
 
 	// O2/O3: fill with random valid values and lock flags
-	for round := 0; round < 2; round++ {
+	for round := 0; round < 3; round++ {
 		jv := cloneFG(j0)
 		force := ""
-		if strings.HasPrefix(origin, "directed") {
+		if strings.HasPrefix(origin, "directed") && round < 2 {
 			force = []string{"list", "radio"}[round]
 		}
-		mut := mutateValid(&jv.Forms[0], round == 1 && force == "", force)
+		var mut mutation
+		if round == 2 {
+			mut = mutation{edge: map[string]string{}}
+			mutateLockAndChange(&jv.Forms[0])
+			r.Count("round:lock-transition-and-value-change")
+		} else {
+			mut = mutateValid(&jv.Forms[0], round == 1 && force == "", force)
+		}
 		hasEdge := func(ec string) bool {
 			for _, c := range mut.edge {
 				if c == ec {
@@ -718,8 +778,20 @@ func scenario(origin string, pdf []byte, mutate bool) {
 				cls = ec
 				r.Count("edge:" + ec)
 			}
+			if ok && unnamed[id] == "" {
+				// the lock flag of the fill data is what the next export reports (every type; also on unlock)
+				if g.lock != e.lock {
+					r.OracleFail("lock-flag-not-reported:"+typeName[e.tag], input(origin, pdf, jv, map[string]any{"field": id}),
+						fmt.Sprintf("field %s: fill data locked=%v, exported locked=%v", id, e.lock, g.lock))
+				} else {
+					r.OracleOK()
+				}
+			}
 			switch {
 			case !locked0[id]:
+				if e.lock && v0[id].value != e.value {
+					r.Count("lock-and-change:" + typeName[e.tag])
+				}
 				if !ok || g.value != e.value {
 					r.OracleFail(pick(unnamed[id], "valid-value-not-reported:")+cls, input(origin, pdf, jv, map[string]any{"field": id}),
 						fmt.Sprintf("field %s: filled %q, exported %q", id, e.value, g.value))
